@@ -5,6 +5,16 @@ props = [json.loads(l) for l in open(os.path.join(VERIF, "properties.jsonl"))]
 ids = [p["id"] for p in props]
 
 CHECKS = {
+ "C08": dict(
+   text="Proof: props/C08.v states for every netlist and schedule with a defined result: all components passive => for every excitation "
+        "of the exposed pins (any exposure subset) outgoing power <= incoming power; all lossless => equality (and S^H S = I implies the "
+        "lossless premise); all reciprocal => the result is symmetric. Proved at network level (a flux that cancels over each connection "
+        "and has a sign over each component) and transferred to the solved matrix via solve_sound + solve_complete. Closed under the global "
+        "context. The tie runs /repo on circuits of exactly unitary (Cayley transform), contractive and symmetric rational components and "
+        "lets Coq check, in exact arithmetic, agreement with the model AND T^H T = I / T = T^T / |Tu|^2 <= |u|^2 on the observed matrices.",
+   note="Trusted: Coq kernel + vm_compute; Bignums primitives for the executed instance; model tied by sampled correspondence; harness. "
+        "Conditional on the model returning Ok. /repo receives the binary64 roundings of the exact rational components.",
+   technique="Coq proof (network-level flux balance, all circuits) + vm_compute correspondence and oracle checks on observed matrices", design="§5 C08"),
  "C03": dict(
    text="Proof: props/C03.v states that for every netlist any two merge schedules for which the model returns a result yield the same "
         "remaining pins and the same coefficient for every pin pair (schedule_independent: soundness of both runs + existence of a wave "
